@@ -5,9 +5,8 @@ import J5V.Props.C18
 #print axioms J5V.Props.C18.C18_total
 #print axioms J5V.Props.C18.C18_cache_total
 #print axioms J5V.Props.C18.C18_collision_is_an_error
-#print axioms J5V.Props.C18.structWitness_reflects
-#print axioms J5V.Props.C18.C18_paths_resolve_counterexample
-#print axioms J5V.Props.C18.C18_paths_resolve_partial
+#print axioms J5V.Props.C18.C18_unsupported_are_errors
+#print axioms J5V.Props.C18.C18_paths_resolve
 #print axioms J5V.Props.C18.C18_property_describes_field
 #print axioms J5V.Props.C18.C18_reader_formats_importable
 #print axioms J5V.Props.C18.C18_flatten_terminates
